@@ -1270,11 +1270,17 @@ def _decorate_with_invariants(
                         ).format(func, param_names, args, kwargs)
                     ) from err
 
-                invariants = (
-                    instance.__class__.__invariants_on_setattr__
+                invariants = getattr(
+                    instance.__class__,
+                    "__invariants_on_setattr__"
                     if is_setattr
-                    else instance.__class__.__invariants_on_call__
+                    else "__invariants_on_call__",
+                    None,
                 )
+                if invariants is None:
+                    # The first argument is no instance of a class with invariants (*e.g.*, a plain function which
+                    # is kept in the class body and called through the class).
+                    return await func(*args, **kwargs)
 
                 in_progress = _IN_PROGRESS.get()
 
@@ -1317,11 +1323,17 @@ def _decorate_with_invariants(
                         ).format(func, param_names, args, kwargs)
                     ) from err
 
-                invariants = (
-                    instance.__class__.__invariants_on_setattr__
+                invariants = getattr(
+                    instance.__class__,
+                    "__invariants_on_setattr__"
                     if is_setattr
-                    else instance.__class__.__invariants_on_call__
+                    else "__invariants_on_call__",
+                    None,
                 )
+                if invariants is None:
+                    # The first argument is no instance of a class with invariants (*e.g.*, a plain function which
+                    # is kept in the class body and called through the class).
+                    return func(*args, **kwargs)
 
                 # The following dunder indicates whether another invariant is currently being checked. If so,
                 # we need to suspend any further invariant check to avoid endless recursion.
